@@ -83,6 +83,34 @@ InsertCopy(rec, fresh) ==
      /\ AddCst(u, IF a # rec.alias THEN RenRec(body, One(rec.alias, a)) ELSE body)
      /\ UNCHANGED trk
 
+\* ---- bulk insertion (RSForm::InsertCopy of a list, Ops().MergeWith): identifiers and aliases are issued one after the other,
+\* then every inserted copy is renamed by the complete alias map in one simultaneous substitution
+AliasesOf(c) == {c[u].alias : u \in DOMAIN c}
+RECURSIVE MergeIns(_, _, _, _, _, _)
+MergeIns(i, S2, ord, c, fresh, acc) ==
+  IF i > Len(S2.ord) THEN [ord |-> ord, c |-> c, tr |-> acc.tr, names |-> acc.names]
+  ELSE LET u == S2.ord[i]  r == S2.c[u]
+           taken == AliasesOf(c)
+           clash == u \in DOMAIN c
+           nu == IF clash THEN Head(fresh) ELSE u
+           na == IF NeedNameChange(r.alias, r.kind, taken) THEN NewName(r.kind, taken) ELSE r.alias
+       IN MergeIns(i + 1, S2, InsertAtPos(ord, InsPos(ord, c, r.kind), nu), (nu :> [r EXCEPT !.alias = na]) @@ c,
+                   IF clash THEN Tail(fresh) ELSE fresh, [tr |-> (u :> nu) @@ acc.tr, names |-> (r.alias :> na) @@ acc.names])
+MergeSchemas(S1, S2, fresh) ==
+  LET r == MergeIns(1, S2, S1.ord, S1.c, fresh, [tr |-> <<>>, names |-> <<>>])
+      map == [a \in {x \in DOMAIN r.names : r.names[x] # x} |-> r.names[a]]
+      inserted == {r.tr[u] : u \in DOMAIN S2.c}
+  IN [ord |-> r.ord, c |-> [u \in DOMAIN r.c |-> IF u \in inserted THEN RenRec(r.c[u], map) ELSE r.c[u]], tr |-> r.tr]
+
+\* records: a sequence with distinct own identifiers; fresh: the identifiers the generator hands out on collisions, in order
+InsertBulk(recs, fresh) ==
+  LET S2 == [ord |-> [i \in DOMAIN recs |-> recs[i].uid],
+             c |-> [u \in {recs[i].uid : i \in DOMAIN recs} |->
+                      LET r == recs[CHOOSE i \in DOMAIN recs : recs[i].uid = u]
+                      IN [alias |-> r.alias, kind |-> r.kind, def |-> r.def, conv |-> r.conv, term |-> r.term, text |-> r.text]]]
+      m == MergeSchemas([ord |-> order, c |-> cst], S2, fresh)
+  IN order' = m.ord /\ cst' = m.c /\ UNCHANGED trk
+
 Erase(u) ==
   IF u \in Ids /\ u \notin DOMAIN trk
   THEN /\ cst' = [x \in Ids \ {u} |-> cst[x]]
